@@ -529,8 +529,36 @@ func c11Arch(c *Ctx, p *Prog) {
 					best, bestN = k, n
 				}
 			}
+			tryLock := func(lock string) (bool, string) {
+				okL, whyL := true, ""
+				for _, a := range acc {
+					if isPkgInit(a.Fn) || a.How == "sync" {
+						continue
+					}
+					if heldIn(a.Fn)[a.Instr][lock] {
+						continue
+					}
+					if ok, why := p.callersHold(a.Fn, lock, held, sums, map[*ssa.Function]bool{}, api); !ok {
+						okL = false
+						whyL = a.How + " in " + shortName(a.Fn) + " at " + p.Pos(posOf(a.Instr)) + " without " + shortLock(lock) + " (" + why + ")"
+					}
+				}
+				return okL, whyL
+			}
 			if best == "" {
-				r.Bad("C11.R1", cons, p.Pos(g.Pos()), "package-level variable is written after initialisation by code reachable from the public API with no lock held, not atomically and not under sync.Once: concurrent builders race on it")
+				// no access takes a lock itself: maybe every caller holds one of the module's locks
+				found := ""
+				for _, lk := range allLocks(p) {
+					if ok, _ := tryLock(lk); ok {
+						found = lk
+						break
+					}
+				}
+				if found != "" {
+					r.OK("C11.R1", cons, p.Pos(g.Pos()), "every call path to its accesses holds "+shortLock(found))
+				} else {
+					r.Bad("C11.R1", cons, p.Pos(g.Pos()), "package-level variable is written after initialisation by code reachable from the public API with no lock held, not atomically and not under sync.Once: concurrent builders race on it")
+				}
 				continue
 			}
 			okAll := true
@@ -734,4 +762,22 @@ func errNonNilPath(i ssa.Instruction) bool {
 		}
 	}
 	return false
+}
+
+// allLocks lists the package-level locks the module takes anywhere.
+func allLocks(p *Prog) []string {
+	set := map[string]bool{}
+	for _, f := range p.Funcs {
+		eachInstr(f, func(i ssa.Instruction) {
+			if k, _, _, ok := lockOfCall(i); ok {
+				set[k] = true
+			}
+		})
+	}
+	var out []string
+	for k := range set {
+		out = append(out, k)
+	}
+	sort.Strings(out)
+	return out
 }
